@@ -243,7 +243,7 @@ def run_pipeline(case):
     from rig.place_and_route import allocate, route, Cores
     from rig.routing_table import routing_tree_to_tables, minimise_tables
     vr, nets, machine, cons, vobj = gp.build_problem(case)
-    back = dict((id(o) if case["vkind"] == "obj" else o, n)
+    back = dict((id(o) if case["vkind"] in ("obj", "idobj") else o, n)
                 for n, o in vobj.items())
     keys = {}
     for net, pat in zip(nets, case["keys"]["pats"]):
@@ -292,7 +292,7 @@ def run_pipeline(case):
         _check_appmap(case, appmap, apps, placements, allocations, Cores)
 
     def nm(o):
-        return back.get(id(o) if case["vkind"] == "obj" else o)
+        return back.get(id(o) if case["vkind"] in ("obj", "idobj") else o)
     return {
         "placements": dict((nm(v), tuple(c)) for v, c in placements.items()),
         "cores": dict((nm(v), a.get(Cores)) for v, a in allocations.items()),
